@@ -3,7 +3,7 @@ from ..rules import delivery, flow
 from .common import declare
 
 RULES = ['SINGLE-CONSUMER', 'SERIAL-DRAIN', 'FIFO-END', 'SWAP-ATOMIC', 'ATOMIC-RMW', 'AWAITABLE-SHARE', 'EMIT-SIG', 'BOUND-PLUMB', 'NOTIFY-ON-FREE', 'ARM-CANCEL',
-         'APPEND-THEN-TEST', 'ARM-ON-FIRST', 'AWAITABLE-RESULT', 'PROPAGATE']
+         'APPEND-THEN-TEST', 'ARM-ON-FIRST', 'AWAITABLE-RESULT', 'PROPAGATE', 'EAGER-UPDATE']
 FLOORS = {'SINGLE-CONSUMER': 6, 'SERIAL-DRAIN': 6, 'FIFO-END': 10, 'SWAP-ATOMIC': 6, 'ATOMIC-RMW': 1, 'AWAITABLE-SHARE': 2,
           'EMIT-SIG': 30}
 
@@ -38,5 +38,6 @@ def run(ctx, R):
     flow.check_bound_plumb(ctx, R)        # map_async's slot wait is also what keeps its jobs in arrival order
     delivery.check_partition_timer(ctx, R)  # partition with a timeout
     R.run(flow.check_awaitable_result, ctx, R, core)
+    R.run(delivery.check_eager_update, ctx, R, [c for c in core if c.module.name == 'streamz.core'])
     # an emission whose awaitables are neither awaited nor handed back is never run for a native-coroutine consumer
     R.run(flow.check_propagate, ctx, R, modules=('streamz.core', 'streamz.sinks'), note_modules=())
